@@ -179,7 +179,7 @@ func streamC14(h *H) {
 	c11InstallIndexFull()
 	root := MkTemp("c14-")
 	defer os.RemoveAll(root)
-	n := h.N(24, 144)
+	n := h.N(24, 96)
 	for i := 0; i < n; i++ {
 		c14Scenario(h, root, i)
 	}
@@ -219,7 +219,7 @@ func c14Scenario(h *H, root string, si int) {
 		wtrees = append(wtrees, t)
 	}
 	sched := &c14Sched{rng: rand.New(rand.NewSource(h.Rng.Int63())), rops: map[string][]string{}, rpos: map[string][]int{}, writers: nw}
-	ctx, cancel := context.WithTimeout(context.Background(), 120*time.Second)
+	ctx, cancel := context.WithTimeout(context.Background(), 300*time.Second)
 	defer cancel()
 	var wg sync.WaitGroup
 	wres := make([]CmdResult, nw)
@@ -295,8 +295,14 @@ func c14Scenario(h *H, root string, si int) {
 	wg.Wait()
 	rwg.Wait()
 
+	timedOut := ctx.Err() != nil
 	in := newA12Intern()
 	h.Case("concurrent")
+	if timedOut {
+		// the scenario did not finish within its time limit (overloaded machine): reported as a
+		// hang in the evidence, never as a property violation
+		h.Rec("timeout", "1")
+	}
 	a12EmitState(h, dec, in, base, "r0")
 	// global trace: decode all packs first so closures can be expanded, then emit in order
 	final := DumpBackend(be)
